@@ -12,8 +12,8 @@
 //!
 //! Types are approximated from what `syn` shows: field/param/local type annotations, struct and enum-variant field
 //! types, initialisers that name `HashMap`/`HashSet`, return types of methods. A struct with a hash-backed field and an
-//! `iter`/`into_iter`/`keys`/`values` method that iterates it counts as hash-backed itself (`Env`); this is iterated to a
-//! fixpoint. `#[cfg(test)]` items and `tests.rs` are skipped.
+//! `iter`/`into_iter`/`keys`/`values` method that iterates it counts as hash-backed itself (`Env`), as does a `type` alias of
+//! a hash-backed type; this is iterated to a fixpoint. `#[cfg(test)]` items and `tests.rs` are skipped.
 use crate::*;
 use std::collections::{BTreeMap, BTreeSet};
 use syn::visit::Visit;
@@ -72,6 +72,8 @@ struct Decls {
     tuple_hash: BTreeMap<String, Vec<bool>>,
     /// method / fn names whose declared return type is hash-typed
     returns_hash: BTreeSet<String>,
+    /// `type X = <hash-backed>` aliases
+    hash_aliases: BTreeSet<String>,
 }
 
 struct DeclScan<'a> { hash_types: &'a BTreeSet<String>, d: &'a mut Decls }
@@ -97,6 +99,8 @@ impl<'ast> Visit<'ast> for DeclScan<'_> {
     fn visit_signature(&mut self, s: &'ast syn::Signature) {
         if let syn::ReturnType::Type(_, t) = &s.output { if type_is_hash(t, self.hash_types) { self.d.returns_hash.insert(s.ident.to_string()); } }
     }
+    fn visit_item_type(&mut self, t: &'ast syn::ItemType) { if type_is_hash(&t.ty, self.hash_types) { self.d.hash_aliases.insert(t.ident.to_string()); } }
+    fn visit_impl_item_type(&mut self, t: &'ast syn::ImplItemType) { if type_is_hash(&t.ty, self.hash_types) { self.d.hash_aliases.insert(t.ident.to_string()); } }
 }
 
 #[derive(Clone, Debug, PartialEq, Eq, PartialOrd, Ord)]
@@ -314,7 +318,7 @@ pub fn hashsites(ctx: &mut Ctx) -> Option<String> {
             it.append(&mut b.iter_sites); rd.append(&mut b.readdir_sites); en.append(&mut b.entropy_sites); methods.append(&mut b.iterating_methods);
         }
         let wrappers: BTreeSet<String> = methods.iter().filter(|(t, m)| d.struct_hash_fields.contains_key(t) && ITER_METHODS.contains(&m.as_str())).map(|(t, _)| t.clone()).collect();
-        let grown: BTreeSet<String> = hash_types.union(&wrappers).cloned().collect();
+        let grown: BTreeSet<String> = hash_types.union(&wrappers).cloned().collect::<BTreeSet<String>>().union(&d.hash_aliases).cloned().collect();
         let stable = grown == hash_types;
         hash_types = grown;
         result = Some((it, rd, en));
